@@ -487,6 +487,108 @@ Section Sorting.
   Qed.
 End Sorting.
 
+(** ** foreach with the visitor that moves the visited element to another list *)
+
+(** number of visits and result of a foreach whose visitor answers non-zero at
+    its [stop]-th call (0 = never) on a list of [n] elements *)
+Definition fm_hit (stop k n : nat) : bool := ((0 <? stop) && (stop <=? k + n))%nat.
+Definition fm_count (stop n : nat) : nat := if fm_hit stop 0 n then stop else n.
+Definition fm_res (stop n : nat) : Z := if fm_hit stop 0 n then Z.of_nat stop else 0%Z.
+
+(** Loop invariant of [fmove_loop]: entered with [c] = the head of the
+    traversed list after [k] visits, it visits the next [m] elements in order,
+    leaves the rest in the traversed list and appends the visited ones to the
+    other list; pop_front returns the visited element at every visit. *)
+Lemma fmove_loop_spec fuel : forall sl dl stop k acc bad,
+  wf sl -> wf dl -> (forall x, In x (items sl) -> ~ In x (items dl)) ->
+  (length (items sl) < fuel)%nat -> (stop = 0 \/ k < stop)%nat ->
+  exists sl' dl',
+    fmove_loop fuel (hd_error (items sl)) sl dl stop k acc bad =
+      Ok (sl', dl',
+          rev acc ++ firstn (if fm_hit stop k (length (items sl)) then stop - k else length (items sl)) (items sl),
+          (if fm_hit stop k (length (items sl)) then Z.of_nat stop else 0%Z), bad) /\
+    items sl' = skipn (if fm_hit stop k (length (items sl)) then stop - k else length (items sl)) (items sl) /\
+    items dl' = items dl ++ firstn (if fm_hit stop k (length (items sl)) then stop - k else length (items sl)) (items sl) /\
+    wf sl' /\ wf dl'.
+Proof.
+  induction fuel as [|f IH]; intros sl dl stop k acc bad Wl Wd Hdis Hf Hk; [lia|].
+  destruct (items sl) as [|e r] eqn:EL.
+  - (* c == NULL *)
+    assert (Hh : fm_hit stop k (length (@nil nat)) = false).
+    { unfold fm_hit. simpl length. destruct (Nat.ltb_spec 0 stop); simpl; auto.
+      destruct (Nat.leb_spec stop (k + 0)); auto; lia. }
+    rewrite Hh. simpl. exists sl, dl. rewrite !app_nil_r. repeat split; auto; try apply Wl; try apply Wd.
+  - cbn [hd_error fmove_loop]. rewrite EL. cbn [next_of]. rewrite Nat.eqb_refl.
+    pose proof (pop_front_spec sl Wl) as P. rewrite EL in P.
+    destruct P as (sl1 & E1 & I1 & W1). rewrite E1.
+    assert (He : ~ In e (items dl)) by (apply Hdis; simpl; auto).
+    destruct (push_back_spec dl e Wd He) as (dl1 & E2 & I2 & W2). rewrite E2.
+    cbn [opt_eqb]. rewrite Nat.eqb_refl.
+    assert (Hnd : NoDup (e :: r)) by (rewrite <- EL; apply Wl).
+    simpl length.
+    destruct (Nat.ltb_spec 0 stop) as [Hs|Hs]; cbn [andb].
+    + destruct (Nat.eqb_spec (S k) stop) as [Es|Es].
+      * (* the visitor asks to stop at this element *)
+        assert (Hh : fm_hit stop k (S (length r)) = true).
+        { unfold fm_hit. destruct (Nat.ltb_spec 0 stop); [|lia].
+          destruct (Nat.leb_spec stop (k + S (length r))); auto; lia. }
+        rewrite Hh. replace (stop - k)%nat with 1%nat by lia. simpl.
+        exists sl1, dl1. repeat split; auto; try apply W1; try apply W2.
+      * destruct (IH sl1 dl1 stop (S k) (e :: acc) bad) as (sl' & dl' & E3 & I3 & I4 & W3 & W4); auto.
+        { intros x Hx. rewrite I1 in Hx. rewrite I2, in_app_iff. intros [Hin|[<-|[]]].
+          - apply (Hdis x); auto. simpl; auto.
+          - inversion Hnd; auto. }
+        { rewrite I1. simpl in Hf. lia. }
+        { lia. }
+        rewrite I1 in E3, I3, I4.
+        assert (Hh : fm_hit stop (S k) (length r) = fm_hit stop k (S (length r))).
+        { unfold fm_hit. replace (S k + length r)%nat with (k + S (length r))%nat by lia. auto. }
+        rewrite Hh in E3, I3, I4. rewrite E3. exists sl', dl'.
+        destruct (fm_hit stop k (S (length r))) eqn:Eh.
+        -- assert (stop <= k + S (length r))%nat.
+           { unfold fm_hit in Eh. apply andb_prop in Eh as (_ & Eh). apply Nat.leb_le in Eh; auto. }
+           replace (stop - k)%nat with (S (stop - S k))%nat by lia.
+           simpl. rewrite <- app_assoc in *. simpl. rewrite I2, <- app_assoc in I4. simpl in I4.
+           repeat split; auto; try apply W3; try apply W4.
+        -- simpl. rewrite <- app_assoc in *. simpl. rewrite I2, <- app_assoc in I4. simpl in I4.
+           repeat split; auto; try apply W3; try apply W4.
+    + (* stop = 0: never stops *)
+      assert (stop = 0)%nat by lia. subst stop.
+      destruct (IH sl1 dl1 0%nat (S k) (e :: acc) bad) as (sl' & dl' & E3 & I3 & I4 & W3 & W4); auto.
+      { intros x Hx. rewrite I1 in Hx. rewrite I2, in_app_iff. intros [Hin|[<-|[]]].
+        - apply (Hdis x); auto. simpl; auto.
+        - inversion Hnd; auto. }
+      { rewrite I1. simpl in Hf. lia. }
+      rewrite I1 in E3, I3, I4. unfold fm_hit in *. simpl in E3, I3, I4 |- *.
+      rewrite E3. exists sl', dl'. rewrite <- app_assoc in *. simpl.
+      rewrite I2, <- app_assoc in I4. simpl in I4.
+      repeat split; auto; try apply W3; try apply W4.
+Qed.
+
+(** cstl_slist_foreach with the moving visitor, from any two well-formed
+    disjoint lists: exactly the first [fm_count stop n] elements are visited
+    (in order), they leave the traversed list and are appended to the other
+    one in the same order; both lists are well formed again (tail = true
+    last, count = length); pop_front handed back the visited element at every
+    visit (mismatch count 0). *)
+Lemma fmove_spec sl dl stop :
+  wf sl -> wf dl -> (forall x, In x (items sl) -> ~ In x (items dl)) ->
+  exists sl' dl',
+    fmove sl dl stop = Ok (sl', dl', firstn (fm_count stop (length (items sl))) (items sl),
+                           fm_res stop (length (items sl)), 0%nat) /\
+    items sl' = skipn (fm_count stop (length (items sl))) (items sl) /\
+    items dl' = items dl ++ firstn (fm_count stop (length (items sl))) (items sl) /\
+    wf sl' /\ wf dl'.
+Proof.
+  intros Wl Wd Hdis. unfold fmove, fm_count, fm_res.
+  destruct (fmove_loop_spec (S (N.to_nat (count sl))) sl dl stop 0 [] 0 Wl Wd Hdis)
+    as (sl' & dl' & E & I1 & I2 & W1 & W2).
+  { destruct Wl as (_ & Hc & _). rewrite Hc. lia. }
+  { lia. }
+  rewrite Nat.sub_0_r in *. simpl rev in E. simpl app in E.
+  exists sl', dl'. repeat split; auto; try apply W1; try apply W2.
+Qed.
+
 (** ** The scripted system *)
 
 Definition sys_wf (s : sys) : Prop :=
@@ -648,7 +750,14 @@ Section System.
       spec a (Foreach l stop) a (0%Z :: zids L)
   | sp_foreach_stop l L stop : nth_error a l = Some L -> (1 <= stop <= length L)%nat ->
       spec a (Foreach l stop) a (Z.of_nat stop :: zids (firstn stop L))
-  | sp_clear l L : nth_error a l = Some L -> spec a (Clear l) (upd a l []) (zids L).
+  | sp_clear l L : nth_error a l = Some L -> spec a (Clear l) (upd a l []) (zids L)
+  (* foreach over [l] with the visitor that pops the visited element off [l] and
+     pushes it onto the back of [d]: with k = number of visits, l' = skipn k l,
+     d' = d ++ firstn k l, log = firstn k l, no mismatch seen by the visitor *)
+  | sp_fmove l d L D stop : l <> d -> nth_error a l = Some L -> nth_error a d = Some D ->
+      spec a (FMove l d stop)
+           (upd (upd a l (skipn (fm_count stop (length L)) L)) d (D ++ firstn (fm_count stop (length L)) L))
+           (fm_res stop (length L) :: 0%Z :: zids (firstn (fm_count stop (length L)) L)).
 
   Lemma nth_abs s l sl : nth_error s l = Some sl -> nth_error (abs s) l = Some (items sl).
   Proof. unfold abs. intros H. rewrite nth_error_map, H; auto. Qed.
@@ -676,7 +785,7 @@ Section System.
     end.
   Proof.
     intros W. pose proof W as (Wf & Wn).
-    destruct o as [l e|l e|l b e|l b|l|l|l|l|l|l|d sr|a b|l stop|l]; cbn [SListModel.step].
+    destruct o as [l e|l e|l b e|l b|l|l|l|l|l|l|d sr|a b|l stop|l|l d stop]; cbn [SListModel.step].
     - (* PushFront *)
       unfold with_list. destruct (nth_error s l) as [sl|] eqn:E; auto.
       destruct (in_any s e) eqn:Ein; auto.
@@ -816,6 +925,45 @@ Section System.
       + eapply sys_wf_upd; eauto. apply wf_init. intros pre post Hnd Eq. simpl.
         eapply NoDup_sub_mid with (b := []); [constructor| |exact Hnd]. intros z [].
       + rewrite abs_upd. simpl. constructor. apply nth_abs; auto.
+    - (* FMove *)
+      destruct (Nat.eqb_spec l d) as [->|Hne]; auto.
+      unfold with_list. destruct (nth_error s l) as [sl|] eqn:El; auto.
+      destruct (nth_error s d) as [dl|] eqn:Ed; auto.
+      pose proof (nth_error_Forall _ _ _ _ Wf El) as Wl.
+      pose proof (nth_error_Forall _ _ _ _ Wf Ed) as Wd.
+      pose proof (sys_disjoint s l d sl dl Wn Hne El Ed) as Hdis.
+      destruct (fmove_spec sl dl stop Wl Wd Hdis) as (sl' & dl' & E1 & I1 & I2 & W1 & W2).
+      rewrite E1. split.
+      + split.
+        * apply Forall_upd; auto. apply Forall_upd; auto.
+        * eapply Permutation_NoDup; [|exact Wn]. symmetry.
+          apply flat_map_upd2 with (al := sl) (bl := dl); auto.
+          rewrite I1, I2. rewrite (Permutation_app_comm (skipn _ _)). rewrite <- app_assoc.
+          rewrite firstn_skipn. apply Permutation_app_comm.
+      + rewrite !abs_upd, I1, I2. apply sp_fmove; auto; apply nth_abs; auto.
+  Qed.
+
+  (** foreach with the moving visitor, from any well-formed system state and
+      any two distinct lists of it: completes, yields exactly the reference
+      result, and the state is well formed again *)
+  Lemma fmove_step s l d stop sl dl :
+    sys_wf s -> l <> d -> nth_error s l = Some sl -> nth_error s d = Some dl ->
+    exists s',
+      step s (FMove l d stop) =
+        Done s' (fm_res stop (length (items sl)) :: 0%Z
+                 :: zids (firstn (fm_count stop (length (items sl))) (items sl))) /\
+      sys_wf s' /\
+      abs s' = upd (upd (abs s) l (skipn (fm_count stop (length (items sl))) (items sl))) d
+                   (items dl ++ firstn (fm_count stop (length (items sl))) (items sl)).
+  Proof.
+    intros W Hne El Ed. pose proof (step_correct s (FMove l d stop) W) as H.
+    cbn [SListModel.step] in *. rewrite (proj2 (Nat.eqb_neq l d) Hne) in *.
+    unfold with_list in *. rewrite El, Ed in *.
+    pose proof W as (Wf & Wn).
+    destruct (fmove_spec sl dl stop (nth_error_Forall _ _ _ _ Wf El) (nth_error_Forall _ _ _ _ Wf Ed)
+                         (sys_disjoint s l d sl dl Wn Hne El Ed)) as (sl' & dl' & E1 & I1 & I2 & _).
+    rewrite E1 in *. destruct H as (W' & _). eexists; split; [reflexivity|]. split; auto.
+    rewrite !abs_upd, I1, I2. reflexivity.
   Qed.
 
   Lemma sys_wf_init n : sys_wf (sys_init n).
